@@ -1,1 +1,80 @@
-From CMinx Require Import Base.Str.
+(* Properties/C08.v -- include_undocumented_* options only affect commands without a doccomment.
+   Only theorem statements; proofs are in Proofs/AggFlags.v.  All theorems are for an ARBITRARY
+   flag record (no sweep over the 2^10 vectors).  from_doc st = the entries whose origin is a
+   doccomment-carrying command (ghost list origins); doc_view keeps of a class what stems from
+   its own doccomment-carrying commands.  Two known findings are kept visible as refuted
+   statements: F9 (documented class with its flag off) and F26 (a hidden declaration leaves the
+   awaiting slot to an earlier documented declaration). *)
+From Coq Require Import String List.
+From CMinx Require Import Base.Str Model.Parser Model.DocTypes Model.Aggregator Spec.AggSpec
+     Proofs.AggClass Proofs.AggFlags.
+Import ListNotations.
+
+(* the main theorem: for every flag record the entries stemming from doccomments equal those
+   under default settings *)
+Theorem C08_documented_entries_stable :
+  forall trigger strip_fn strip_mac strip_mem fl f st_fl st_def,
+    no_F9 fl (f_elems f) = true ->
+    decls_followed (f_elems f) = true ->
+    aggregate fl trigger strip_fn strip_mac strip_mem f = Ok st_fl ->
+    aggregate default_flags trigger strip_fn strip_mac strip_mem f = Ok st_def ->
+    map doc_view (from_doc st_fl) = map doc_view (from_doc st_def).
+Proof. exact documented_entries_stable. Qed.
+Print Assumptions C08_documented_entries_stable.
+
+(* a doccomment-carrying command never consults a flag (except cpp_class: F9 below) *)
+Theorem C08_documented_step_flag_independent :
+  forall trigger strip_fn strip_mac strip_mem fl st d c,
+    cmd_kind c <> s"cpp_class" ->
+    agg_step fl trigger strip_fn strip_mac strip_mem st (EDocCmd d c)
+    = agg_step default_flags trigger strip_fn strip_mac strip_mem st (EDocCmd d c).
+Proof. exact documented_step_flag_independent. Qed.
+Print Assumptions C08_documented_step_flag_independent.
+
+(* switching option K off: a K-command without a doccomment adds and alters no entry *)
+Theorem C08_undocumented_flag_off_entries_unchanged :
+  forall trigger strip_fn strip_mac strip_mem fl c st st' h,
+    lookup (cmd_kind c) handler_table = Some h ->
+    include_flag fl h = Some false ->
+    claimed (cmd_kind c) st = false ->
+    agg_step fl trigger strip_fn strip_mac strip_mem st (ECmd c) = Ok st' ->
+    documented st' = documented st /\ origins st' = origins st /\ awaiting st' = awaiting st
+    /\ (st' = st \/ st' = with_def_stack (None :: def_stack st) st
+        \/ st' = with_class_stack (None :: class_stack st) st).
+Proof. exact undocumented_flag_off_entries_unchanged. Qed.
+Print Assumptions C08_undocumented_flag_off_entries_unchanged.
+
+(* ... and with K on it behaves as under default settings *)
+Theorem C08_undocumented_flag_on_as_default :
+  forall trigger strip_fn strip_mac strip_mem fl c st h,
+    lookup (cmd_kind c) handler_table = Some h ->
+    include_flag fl h = Some true ->
+    agg_step fl trigger strip_fn strip_mac strip_mem st (ECmd c)
+    = agg_step default_flags trigger strip_fn strip_mac strip_mem st (ECmd c).
+Proof. exact undocumented_flag_on_as_default. Qed.
+Print Assumptions C08_undocumented_flag_on_as_default.
+
+(* a step depends on the flags only through the one flag of its command kind *)
+Theorem C08_flags_only_via_include_flag :
+  forall trigger strip_fn strip_mac strip_mem fl1 fl2 st e,
+    (forall k, elem_kind e = Some k -> agree_on k fl1 fl2) ->
+    agg_step fl1 trigger strip_fn strip_mac strip_mem st e
+    = agg_step fl2 trigger strip_fn strip_mac strip_mem st e.
+Proof. exact flags_only_via_include_flag. Qed.
+Print Assumptions C08_flags_only_via_include_flag.
+
+(* known finding F9, exactly: one extra None on the class stack *)
+Theorem C08_F9_documented_class_pushes_none :
+  forall trigger strip_fn strip_mac strip_mem fl st d c st1,
+    cmd_kind c = s"cpp_class" -> inc_cpp_class fl = false ->
+    agg_step default_flags trigger strip_fn strip_mac strip_mem st (EDocCmd d c) = Ok st1 ->
+    agg_step fl trigger strip_fn strip_mac strip_mem st (EDocCmd d c)
+    = Ok (with_class_stack (None :: class_stack st1) st1).
+Proof. exact F9_documented_class_pushes_none. Qed.
+Print Assumptions C08_F9_documented_class_pushes_none.
+
+(* known finding F26: without decls_followed the main statement is false (witness computed) *)
+Theorem C08_hidden_declaration_refuted :
+  ltac:(let t := type of FlagExamples.documented_entries_stable_refuted in exact t).
+Proof. exact FlagExamples.documented_entries_stable_refuted. Qed.
+Print Assumptions C08_hidden_declaration_refuted.
